@@ -39,6 +39,7 @@ def main(argv=None):
     if a.replay:
         with open(a.replay) as f:
             rp = json.load(f)
+        core.install_contracts(prop)
         if hasattr(prop, "setup"):
             prop.setup()
         ctx, status = core.run_one(prop, rp["case"], rp.get("index", -1), 600.0)
